@@ -670,6 +670,113 @@ func runC16(p *core.Prog, r *core.Report) {
 			}
 		}
 		r.Check(okLoop, "C16.R2", "RemoteWorker.Work/retry-loop", "the retry loop retries a RetryableErr (returns it to derr.RetryContext) and turns any other error into a fatal one", "type switch on *RetryableErr with fatal fallback not found", p.Pos(w.Pos()))
+		// the early give-up is a budget of TIMEOUTS only: the counter tested before the retryable error is turned into a
+		// fatal one is advanced only on the deadline-exceeded branch (any other transient failure — worker unavailable,
+		// stream dropped, overloaded — keeps being retried up to the retry limit of derr.RetryContext)
+		for _, cl := range core.WithClosures(w) {
+			var ta *ssa.TypeAssert
+			core.Instrs(cl, func(in ssa.Instruction) {
+				if t, ok := in.(*ssa.TypeAssert); ok && t.CommaOk && typeName(t.AssertedType) == "*RetryableErr" {
+					ta = t
+				}
+			})
+			if ta == nil {
+				continue
+			}
+			cellOf := func(v ssa.Value) ssa.Value {
+				u, ok := core.SkipConv(v).(*ssa.UnOp)
+				if !ok || u.Op != token.MUL {
+					return nil
+				}
+				switch u.X.(type) {
+				case *ssa.FreeVar, *ssa.Alloc:
+					return u.X
+				}
+				return nil
+			}
+			// deadline-exceeded edges
+			var deadline []core.Edge
+			core.Instrs(cl, func(in ssa.Instruction) {
+				ifi, ok := in.(*ssa.If)
+				if !ok {
+					return
+				}
+				c, neg := core.StripNot(ifi.Cond)
+				call, ok := c.(*ssa.Call)
+				if !ok {
+					return
+				}
+				if cc := core.CommonCallee(call.Common()); cc == nil || calleeKey(cc) != "strings.Contains" {
+					return
+				}
+				k, ok := call.Call.Args[1].(*ssa.Const)
+				if !ok || !strings.Contains(constant.StringVal(k.Value), "DeadlineExceeded") {
+					return
+				}
+				idx := 0
+				if neg {
+					idx = 1
+				}
+				deadline = append(deadline, core.Edge{From: ifi.Block(), Idx: idx})
+			})
+			fatal := core.FindInstrs(cl, func(in ssa.Instruction) bool {
+				c := core.CalleeOf(in)
+				return c != nil && c.Name() == "NewFatalError"
+			})
+			nGive, bad := 0, []string{}
+			core.Instrs(cl, func(in ssa.Instruction) {
+				ifi, ok := in.(*ssa.If)
+				if !ok {
+					return
+				}
+				bo, ok := ifi.Cond.(*ssa.BinOp)
+				if !ok {
+					return
+				}
+				switch bo.Op {
+				case token.GEQ, token.GTR, token.LSS, token.LEQ:
+				default:
+					return
+				}
+				cx, cy := cellOf(bo.X), cellOf(bo.Y)
+				if cx == nil && cy == nil {
+					return
+				}
+				// does one side of this test lead to a fatal error that wraps the retryable one?
+				leads := false
+				for i := 0; i < 2; i++ {
+					for _, f := range fatal {
+						if reachFromBlock(cl, ifi.Block().Succs[i], f) && !reachFromBlock(cl, ifi.Block().Succs[1-i], f) {
+							leads = true
+						}
+					}
+				}
+				if !leads {
+					return
+				}
+				nGive++
+				// every cell of the comparison that is ever incremented in the closure must be incremented on the deadline branch only
+				for _, cell := range []ssa.Value{cx, cy} {
+					if cell == nil {
+						continue
+					}
+					for _, st := range core.StoresTo(cell) {
+						if st.Parent() != cl {
+							continue
+						}
+						add, ok := st.Val.(*ssa.BinOp)
+						if !ok || add.Op != token.ADD || cellOf(add.X) != cell {
+							continue
+						}
+						q := core.PathQuery{Fn: cl, CutEdge: func(e core.Edge) bool { return containsEdge(deadline, e) }}
+						if _, reach := q.CanReach(nil, func(x ssa.Instruction) bool { return x == ssa.Instruction(st) }); reach || len(deadline) == 0 {
+							bad = append(bad, "the counter "+cell.Name()+" compared before giving up is advanced outside the deadline-exceeded branch at "+p.Pos(st.Pos()))
+						}
+					}
+				}
+			})
+			r.Check(nGive > 0 && len(bad) == 0, "C16.R2", "RemoteWorker.Work/give-up-budget", "a retryable failure is turned into a fatal one only when the budget of execution TIMEOUTS is used up: the counter tested is advanced on the deadline-exceeded branch only, so other transient faults keep being retried", fmt.Sprintf("%d give-up tests; %s", nGive, strings.Join(bad, "; ")), p.Pos(cl.Pos()))
+		}
 		// the final error becomes MsgJobFailed with that error
 		okFail := false
 		for _, cl := range core.WithClosures(w) {
